@@ -86,6 +86,9 @@ def header(sc):
             "err": sc.get("err", []), "skip": sc.get("skip", [])}
 
 
+HANG_BUDGET = 4          # walks that do not end, per recorder batch, after which the batch is abandoned
+
+
 def run_recorder(scens, timeout=600):
     """Run record_walk over scenarios; a hang ends the process, so restart after it."""
     path = vlib.hbin("record_walk")
@@ -93,6 +96,7 @@ def run_recorder(scens, timeout=600):
     todo = list(scens)
     # scenarios with directories of mode 000 only mean something to a process that is not root
     cmd = (["setpriv", "--reuid=65534", "--regid=65534", "--clear-groups"] if any(s.get("locked") for s in scens) else []) + [path]
+    hangs = 0
     while todo:
         p = vlib.run(cmd, input=vlib.ndjson(todo), timeout=timeout)
         lines = [json.loads(l) for l in p.stdout.decode().splitlines() if l.strip()]
@@ -100,7 +104,13 @@ def run_recorder(scens, timeout=600):
             if r.get("toolerror"):
                 raise vlib.ToolError("record_walk: %s" % r["toolerror"])
             results[r["id"]] = r
+            hangs += 1 if r.get("hang") else 0
         if p.returncode == 0:
+            break
+        if hangs >= HANG_BUDGET:
+            # every hang costs the watchdog's half minute: enough of them are on record, the rest of this batch is not run
+            for sc in todo[len(lines):]:
+                results[sc["id"]] = {"id": sc["id"], "not_run": True}
             break
         if p.returncode != 3 or not lines:
             raise vlib.ToolError("record_walk failed rc=%d: %s" % (p.returncode, p.stderr.decode("utf8", "replace")[-2000:]))
@@ -144,7 +154,7 @@ def validate_traces(chk, scens, results, tag):
     by_n = {}
     for sc in scens:
         r = results.get(sc["id"])
-        if r is None or r["hang"]:
+        if r is None or r.get("not_run") or r["hang"]:
             continue
         by_n.setdefault(sc["threads"], []).append(sc)
     os.makedirs(os.path.join(vlib.WORK, "c07"), exist_ok=True)
@@ -224,7 +234,7 @@ def preemption_search(chk, tree, roots, threads, quit, bound, budget, idbase, er
         total += len(bs)
         for sc in bs:
             r = rs.get(sc["id"])
-            if r is None:
+            if r is None or r.get("not_run"):
                 continue
             results[sc["id"]] = r
             scens.append({k: v for k, v in sc.items() if not k.startswith("_")})
@@ -355,6 +365,8 @@ def main(tier):
         r = results.get(sc["id"])
         if r is None:
             raise vlib.ToolError("no result for scenario %s" % sc["id"])
+        if r.get("not_run"):
+            continue
         why = judge_run(sc, r)
         if why:
             chk.violation({"kind": "property", "threads": sc["threads"], "quit": bool(sc.get("quit")), "mode": sc["mode"]},
